@@ -641,6 +641,8 @@ func abnormal(r *OpResult) string {
 	switch {
 	case r.Panic != "":
 		return "panic: " + r.Panic
+	case r.Hang != "":
+		return "hang: " + r.Hang
 	case r.Budget:
 		return fmt.Sprintf("hang: loop-step budget exceeded (%d steps)", r.Ticks)
 	case r.Exit:
